@@ -130,6 +130,8 @@ pub struct IncRef {
     pub path: String,
     /// content of the included file: nodes and nested includes
     pub items: Vec<Item>,
+    /// the directive stands inside an IF_DATA block
+    pub in_ifdata: bool,
 }
 
 #[derive(Debug, Clone)]
@@ -281,7 +283,9 @@ impl<'t> DocGen<'t> {
                 0..=5 => s.push_str(self.t.pick_str(&pieces_plain)),
                 6 if self.opts.unicode => {
                     self.feats.non_ascii = true;
-                    s.push_str(self.t.pick_str(&["ü", "°C", "Größe", "µ", "日本", "Ω", "é", "\u{a0}"]));
+                    // includes Latin-1 text whose bytes form well-formed UTF-8 sequences ("Â°" = C2 B0): only the whole
+                    // file decides between UTF-8 and Latin-1, never a prefix of it
+                    s.push_str(self.t.pick_str(&["ü", "°C", "Größe", "µ", "日本", "Ω", "é", "\u{a0}", "Â°", "Ã¤", "Ã¼ber", "ÿþ"]));
                 }
                 7 if self.opts.unicode => {
                     self.feats.non_ascii = true;
@@ -947,6 +951,8 @@ impl<'t> Renderer<'t> {
             } else if has_children || self.lo.style == 0 && !n.body.is_empty() && n.body.len() > 3 {
                 match self.lo.style {
                     0 => self.newline(1, indent),
+                    // "/end" on the line of the last child: the recorded end offset is then 0
+                    2 if self.t.chance(1, 5) => self.out.push(' '),
                     _ => {
                         let k = *self.t.pick(&[1usize, 1, 2]);
                         self.newline(k, indent);
@@ -1010,8 +1016,15 @@ pub fn render_nodes(t: &mut Tape, nodes: &[Node], lo: &LayoutOpts, base_indent: 
 
 /// render a file given as a list of items (nodes and include directives); included files are rendered recursively
 pub fn render_file(t: &mut Tape, path: &str, items: &[Item], lo: &LayoutOpts, base_indent: usize) -> RenderedFile {
+    render_file_in(t, path, items, lo, base_indent, false)
+}
+
+fn render_file_in(t: &mut Tape, path: &str, items: &[Item], lo: &LayoutOpts, base_indent: usize, in_ifdata: bool) -> RenderedFile {
     let (text, spans, feats, pending, a2ml_directives) = {
         let mut r = Renderer::new(t, lo.clone());
+        if in_ifdata {
+            r.in_ifdata = 1;
+        }
         let mut first = true;
         for it in items {
             match it {
@@ -1032,7 +1045,7 @@ pub fn render_file(t: &mut Tape, path: &str, items: &[Item], lo: &LayoutOpts, ba
         let mut child_lo = LayoutOpts::swarm(t);
         child_lo.crlf = lo.crlf;
         child_lo.leading_blank = t.chance(1, 3);
-        let file = render_file(t, &p.inc.path, &p.inc.items, &child_lo, base_indent);
+        let file = render_file_in(t, &p.inc.path, &p.inc.items, &child_lo, base_indent, p.inc.in_ifdata);
         directives.push(RDirective { start: p.start, end: p.end, line: p.line, name: p.inc.name.clone(), quoted: p.inc.quoted, a2ml_level: false, file });
     }
     RenderedFile { path: path.to_string(), text, spans, directives, feats }
